@@ -45,3 +45,18 @@ Example C03_nonvacuous :
   let s := fst (mrun 8 idz idz 2 (minit 2) (fun t => nth t progs []) (repeat 0 6 ++ [1;1;0;0;1;2;3;0;1;1;3;2] ++ concat (repeat [0;1;2;3] 40))%nat) in
   (yielded_of (log (rings s 0%nat)), yielded_of (log (rings s 1%nat))) = ([1; 10; 2], [1; 10; 2]).
 Proof. vm_compute. reflexivity. Qed.
+
+(* ---- the arc / full-sync Multi channel (Chan/MultiFS.v, in lock-step with multi::channels::arc::full_sync): for every interleaving of
+   producers, pollers, listener creations and removals, every listener's ring is a run of the full-sync ring machine; per listener:
+   at most once, in order, nothing invented - and the ring invariant (mutual exclusion on the flag, capacity, buffer = log) ---- *)
+From RM Require Import MultiFS MultiFSProps.
+Theorem C03_arc_full_sync_listener_exactly_once :
+  forall N M, 0 < N -> forall mevs i,
+    let r := MFS.rings (fold_left (MultiFSProps.mexec N M) mevs (MFS.minit M)) i in
+    yielded_of (flog r) = firstn (length (yielded_of (flog r))) (fpublished r).
+Proof. intros N M HN. exact (MultiFSProps.listener_exactly_once N M HN). Qed.
+Print Assumptions C03_arc_full_sync_listener_exactly_once.
+Theorem C03_arc_full_sync_listener_ring_invariant :
+  forall N M, 0 < N -> forall mevs i, FInv N (MFS.rings (fold_left (MultiFSProps.mexec N M) mevs (MFS.minit M)) i).
+Proof. intros N M HN. exact (MultiFSProps.listener_ring_invariant N M HN). Qed.
+Print Assumptions C03_arc_full_sync_listener_ring_invariant.
